@@ -4,7 +4,7 @@
    run (Gen/GenLoop.v); NumR is the real-number instance of the model, NumF the binary64 one.
    What the real-number theorems do NOT cover is exactly what C15_cel_iter_terminates_refuted shows. *)
 From Coq Require Import ZArith Reals List Bool.
-From MV Require Import Model.LoopNum Gen.GenLoop Model.LoopModel Model.LoopExec Proofs.LoopProofs Proofs.LoopFloat.
+From MV Require Import Model.LoopNum Gen.GenLoop Model.LoopModel Model.LoopExec Model.LoopPins Proofs.LoopProofs Proofs.LoopFloat.
 Import ListNotations.
 Local Open Scope R_scope.
 
@@ -99,6 +99,11 @@ Theorem C15_cylinder_axial_cel0_terminates : forall (z0 r z p c s : R),
   exists N n0 v0 n1 v1, cel0 NumR N (ym_k0 NumR m) p c s = Done n0 v0 /\ cel0 NumR N (ym_k1 NumR m) p c s = Done n1 v1.
 Proof. exact cylinder_axial_cel0_terminates. Qed.
 Print Assumptions C15_cylinder_axial_cel0_terminates.
+
+(* ---- special_el3.py is not modelled: its source text (ast) is the one the search results were derived for *)
+Theorem C15_special_el3_pinned : special_el3_fingerprint = special_el3_expected_fingerprint.
+Proof. exact special_el3_pinned. Qed.
+Print Assumptions C15_special_el3_pinned.
 
 (* ---- the same model in binary64: the loops themselves do NOT terminate on every finite input; they rely
    on their callers' masks.  gap_row = Circle(diameter 2, current 1) seen from (1, 0, 1e-170): (z/r0)^2
